@@ -35,8 +35,16 @@ def main():
             subprocess.check_call("git -C /repo archive HEAD | tar -x -C %s" % target, shell=True)
         head = run(["git", "-C", "/repo", "rev-parse", "--short", "HEAD"]).stdout.strip()
         meta["repo_head"] = head
-        applied = run(["patch", "-p1", "-s", "--fuzz=3", "-i", os.path.join(source, "patch.diff")], cwd=patched)
-        meta["ran"].append({"cmd": "patch -p1 --fuzz=3 < patch.diff (scratch copy of /repo@%s)" % head, "exit": applied.returncode})
+        for command in (["git", "init", "-q", "."], ["git", "add", "-A"],
+                        ["git", "-c", "user.email=verif@example.org", "-c", "user.name=verif", "commit", "-q", "-m", "base"]):
+            subprocess.check_call(command, cwd=patched, stdout=subprocess.DEVNULL)
+        applied = run(["git", "apply", os.path.join(source, "patch.diff")], cwd=patched)
+        meta["git_apply_clean"] = applied.returncode == 0
+        if applied.returncode != 0:
+            applied = run(["patch", "-p1", "-s", "--fuzz=3", "-i", os.path.join(source, "patch.diff")], cwd=patched)
+        refreshed = run(["git", "diff"], cwd=patched).stdout if applied.returncode == 0 else None
+        meta["ran"].append({"cmd": "git apply patch.diff (else patch -p1 --fuzz=3) on a scratch copy of /repo@%s" % head,
+                            "exit": applied.returncode})
         if applied.returncode != 0:
             print("PATCH DOES NOT APPLY:\n" + applied.stdout)
             return 3
@@ -72,8 +80,13 @@ def main():
             target = os.path.join(VERIF, "seeded", name)
             os.makedirs(target, exist_ok=True)
             for item in ("patch.diff", "demo.py", "notes.md"):
-                if os.path.exists(os.path.join(source, item)):
+                if os.path.exists(os.path.join(source, item)) and os.path.abspath(source) != os.path.abspath(target):
                     shutil.copy(os.path.join(source, item), os.path.join(target, item))
+            if refreshed and not meta["git_apply_clean"]:
+                # the patch needed fuzz on the current HEAD: store it re-generated so that `git apply` works
+                with open(os.path.join(target, "patch.diff"), "w", encoding="utf-8") as stream:
+                    stream.write(refreshed)
+                meta["patch_regenerated_for_head"] = head
             previous = {}
             meta_path = os.path.join(target, "meta.json")
             if os.path.exists(meta_path):
